@@ -198,7 +198,7 @@ func vfsDo(op vFSOp) error {
 		return errors.New("vfs: no such file")
 	}
 	vfsLog = append(vfsLog, op)
-	vfsApply(vfs, op)
+	vfsApplyAny(vfs, op)
 	return nil
 }
 
@@ -214,4 +214,83 @@ func vStub_os_ReadFile(name string) ([]byte, error) {
 		return append([]byte(nil), vfs.data[i]...), nil
 	}
 	return nil, os.ErrNotExist
+}
+
+// yaml contract (engine-only): Marshal returns some non-empty byte string (documents are never empty).
+func vStub_yaml_Marshal(in interface{}) ([]byte, error) {
+	b := vBytes("yaml.doc", 400)
+	vAssume(len(b) >= 1)
+	return b, nil
+}
+
+// *os.File as used by the account manager: create-exclusive, write, close.
+var vOpenFiles = map[*os.File]string{}
+
+func vStub_os_OpenFile(name string, flag int, perm os.FileMode) (*os.File, error) {
+	if flag&os.O_CREATE != 0 {
+		if flag&os.O_EXCL != 0 && vfs.find(name) >= 0 {
+			return nil, os.ErrExist
+		}
+		if vfs.find(name) < 0 || flag&os.O_TRUNC != 0 {
+			if err := vfsDo(vFSOp{kind: "write", name: name, data: []byte{}}); err != nil {
+				return nil, err
+			}
+		}
+	} else if vfs.find(name) < 0 {
+		return nil, os.ErrNotExist
+	}
+	f := new(os.File)
+	vOpenFiles[f] = name
+	return f, nil
+}
+
+func vStub_os_File_Write(f *os.File, b []byte) (int, error) {
+	name := vOpenFiles[f]
+	i := vfs.find(name)
+	var cur []byte
+	if i >= 0 {
+		cur = vfs.data[i]
+	}
+	nd := append(append([]byte(nil), cur...), b...)
+	if err := vfsDo(vFSOp{kind: "append", name: name, data: nd, to: ""}); err != nil {
+		return 0, err
+	}
+	return len(b), nil
+}
+
+func vStub_os_File_Close(f *os.File) error { return nil }
+
+// vfsCrashState: the on-disk state if the process dies before operation k completes. A write/append in flight
+// (operation k itself) has created/truncated the file and written an arbitrary proper prefix of its data
+// (for an append: the old content plus a proper prefix of the added bytes).
+func vfsCrashState(initial *vFSState, log []vFSOp, k int, partial int) *vFSState {
+	s := initial.clone()
+	for i, op := range log {
+		if i < k {
+			vfsApplyAny(s, op)
+			continue
+		}
+		if i == k {
+			switch op.kind {
+			case "write":
+				s.put(op.name, op.data[:partial])
+			case "append":
+				old := 0
+				if j := s.find(op.name); j >= 0 {
+					old = len(s.data[j])
+				}
+				s.put(op.name, op.data[:old+partial])
+			}
+		}
+		break
+	}
+	return s
+}
+
+func vfsApplyAny(s *vFSState, op vFSOp) {
+	if op.kind == "append" {
+		s.put(op.name, op.data)
+		return
+	}
+	vfsApply(s, op)
 }
